@@ -59,6 +59,8 @@ def run(chk):
         run_scenario(chk, 'C06', 'c06', {'mode': 'names', 'len': L}, f'round trip with a symbolic identifier of {L} characters in every slot', native_roundtrip, 'roundtrip-names')
     for L in (1,) + ((2,) if thorough else ()):
         run_scenario(chk, 'C06', 'c06', {'mode': 'names', 'len': L, 'prefix': 1}, f'round trip with an identifier made of an operator prefix (EX, AG, AU, ..) and {L} symbolic character(s) in every slot', native_roundtrip, 'roundtrip-names')
+    chk.bounds['near-reserved names'] = 'identifiers that are case variants of true / false (each character upper or lower case, decided by the solver; reserved spellings excluded) in every name slot of the 10 shapes'
+    run_scenario(chk, 'C06', 'c06', {'mode': 'names', 'len': 0, 'near': 1}, 'round trip with an identifier that is a case variant of a reserved constant word (TRUE, tRuE, FALSE, ..) in every slot', native_roundtrip, 'roundtrip-names')
     # parser and preprocessing outputs (stored text / height consistency is part of these scenarios)
     res = run_scenario(chk, 'C06', 'c05_chars', {'L': 3 if thorough else 2}, 'trees produced by the parser: stored text / height (all strings of symbolic characters)', lambda t: [], 'parser-output')
     from . import c07
